@@ -66,6 +66,12 @@ func (endpoint *PairVerify) ServeHTTP(response http.ResponseWriter, request *htt
 		b := out.GetByte(pair.TagSequence)
 		switch pair.VerifyStepType(b) {
 		case pair.VerifyStepFinishResponse:
+			if out.GetByte(pair.TagErrCode) != 0 {
+				// The finish response reports an error (e.g. invalid signature) – the
+				// connection is not verified and stays unencrypted
+				break
+			}
+
 			if secSession, err = crypto.NewSecureSessionFromSharedKey(ctlr.SharedKey()); err == nil {
 				log.Debug.Println("Setup secure session")
 				session.SetCryptographer(secSession)
